@@ -67,9 +67,18 @@ pub enum Ctxt {
     InAlt,
     InCmd,
     InAdjacent,
+    /// the wrappers are applied to a choice between the item and another one:
+    /// `construct!([item, other]).fallback(..)`
+    AltInStack,
 }
 
-pub const CONTEXTS: &[Ctxt] = &[Ctxt::Plain, Ctxt::InAlt, Ctxt::InCmd, Ctxt::InAdjacent];
+pub const CONTEXTS: &[Ctxt] = &[
+    Ctxt::Plain,
+    Ctxt::InAlt,
+    Ctxt::InCmd,
+    Ctxt::InAdjacent,
+    Ctxt::AltInStack,
+];
 
 pub const INVALID: &[&[u8]] = &[b"x1", b"", b"-", b"99999999999999999999", b"1 ", b"7\xff"];
 
@@ -161,7 +170,11 @@ pub fn build_shape(s: &Shape) -> Built {
             Some(GUARD_MSG),
         ),
     };
-    let mut node = leaf;
+    let mut node = if s.ctxt == Ctxt::AltInStack {
+        alt(vec![leaf, rf("z", &["zeta"])])
+    } else {
+        leaf
+    };
     for (w, c) in &s.stack {
         node = wrap(node, *w, *c);
     }
@@ -208,7 +221,7 @@ pub fn build_shape(s: &Shape) -> Built {
         _ => INVALID[s.invalid_ix % INVALID.len()].to_vec(),
     };
     let (level, argv, offset) = match s.ctxt {
-        Ctxt::Plain => {
+        Ctxt::Plain | Ctxt::AltInStack => {
             let mut f = unrelated;
             f.push(node);
             let mut a = pre;
@@ -398,7 +411,7 @@ fn check_shape_inner(s: &Shape, ctx: &mut Ctx) -> Verdict {
                     ctx.class("catch-swallowed");
                 }
                 Outcome::Stderr(t) => {
-                    if !any_catch && s.ctxt != Ctxt::InAlt {
+                    if !any_catch && !matches!(s.ctxt, Ctxt::InAlt | Ctxt::AltInStack) {
                         let wanted: Vec<String> = match b.guard_msg {
                             Some(g) => vec![g.to_owned()],
                             None => conversion_errors(s.leaf, &b.invalid),
